@@ -175,7 +175,7 @@ def check_c07(s) -> List[Finding]:
 
 class C07(Monitor):
     prop = "C07"
-    hooks = ()
+    hooks = ("move",)
 
     def on_step(self, ctx):
         s = ctx.s
@@ -218,7 +218,9 @@ class C07(Monitor):
             if same:
                 if v.geoid != dest:
                     ctx.violate("C07", "trip-ended-away-from-destination", f"{v.id} exhausted the route of {p.vehicle_state.request.id} at {v.geoid}, the destination is {dest}", vehicle=v.id, request=p.vehicle_state.request.id)
-            elif aname(v) != "OutOfService":
+            elif aname(v) != "OutOfService" or v.id not in {ev["vid"] for ev in ctx.H.get("out_of_energy", [])}:
+                # (running dry is the one way to lose the passengers short of the destination; being told to go out of
+                # service is an instruction like any other)
                 ctx.violate("C07", "trip-abandoned-before-destination", f"{v.id} left ServicingTrip of {p.vehicle_state.request.id} for {aname(v)} at {v.geoid} with {len(p.vehicle_state.route)} links still to drive (destination {dest})", vehicle=v.id, request=p.vehicle_state.request.id)
         # Repositioning: the route entered with ends at the instructed link's end
         for vid, ins in s.applied_instructions.items():
